@@ -213,7 +213,8 @@ Fixpoint encode_tail (fuel : nat) (p : ppath) (i : Z) : result (list Z) :=
       | Some hi, Some lo =>
         match encode_tail f p (ev2 enc_step_op i enc_step) with
         | Ok r => Ok (ev2 enc_combine_op (ev2 enc_shift_op hi enc_shift) lo :: r)
-        | e => e
+        | Reject => Reject
+        | Crash k => Crash k
         end
       | _, _ => Crash index_error
       end
@@ -230,14 +231,16 @@ Definition encode_path (p : ppath) (is_leaf : bool) : result bytes :=
       | Some nb =>
         match encode_tail fuel p (ev2 enc_i_inc_op enc_i_init enc_i_inc) with
         | Ok r => Ok (ev2 enc_or_outer first (ev2 enc_or_inner enc_odd_flag nb) :: r)
-        | e => e
+        | Reject => Reject
+        | Crash k => Crash k
         end
       end
     else
-      match encode_tail fuel p enc_i_init with Ok r => Ok (first :: r) | e => e end in
+      match encode_tail fuel p enc_i_init with Ok r => Ok (first :: r) | Reject => Reject | Crash k => Crash k end in
   match buffer with
   | Ok bs => if wf_bytes bs then Ok bs else Reject      (* bytes(buffer) *)
-  | e => e
+  | Reject => Reject
+  | Crash k => Crash k
   end.
 
 Inductive node :=
@@ -250,9 +253,9 @@ Definition link_bytes (l : option bytes) : bytes := match l with Some h => h | N
 
 Definition node_hash (n : node) : result bytes :=
   match n with
-  | LeafNode p v => match encode_path p leaf_hash_is_leaf with Ok e => Ok (H (e ++ v)) | e => e end
+  | LeafNode p v => match encode_path p leaf_hash_is_leaf with Ok e => Ok (H (e ++ v)) | Reject => Reject | Crash k => Crash k end
   | BranchNode p links =>
-    match encode_path p branch_hash_is_leaf with Ok e => Ok (H (e ++ flat_map link_bytes links)) | e => e end
+    match encode_path p branch_hash_is_leaf with Ok e => Ok (H (e ++ flat_map link_bytes links)) | Reject => Reject | Crash k => Crash k end
   end.
 
 (* hex digits are modelled by their values: hexlify(bs).upper() is the nibble sequence of bs *)
@@ -294,7 +297,8 @@ Fixpoint deserialize_links (indexes : list nat) (mask : Z) (r : reader) : result
     if ev2 des_mask_op mask (des_pow_base ^ Z.of_nat index) =? 0 then
       match deserialize_links rest mask r with
       | Ok (ls, r') => Ok (None :: ls, r')
-      | e => e
+      | Reject => Reject
+      | Crash k => Crash k
       end
     else
       let b := read_bytes r hash256_size in
@@ -302,7 +306,8 @@ Fixpoint deserialize_links (indexes : list nat) (mask : Z) (r : reader) : result
       | Ok h =>
         match deserialize_links rest mask (snd b) with
         | Ok (ls, r') => Ok (Some h :: ls, r')
-        | e => e
+        | Reject => Reject
+        | Crash k => Crash k
         end
       | Reject => Reject
       | Crash k => Crash k
@@ -330,7 +335,7 @@ Fixpoint deserialize_loop (fuel : nat) (r : reader) : result (list node) :=
         else if cmp des_branch_cmp des_branch_marker (fst m) then deserialize_branch (snd m)
         else Reject in
       match parsed with
-      | Ok (n, r') => match deserialize_loop f r' with Ok ns => Ok (n :: ns) | e => e end
+      | Ok (n, r') => match deserialize_loop f r' with Ok ns => Ok (n :: ns) | Reject => Reject | Crash k => Crash k end
       | Reject => Reject
       | Crash k => Crash k
       end
@@ -343,16 +348,18 @@ Definition deserialize_patricia_tree_nodes (buffer : bytes) : result (list node)
 
 (* the wire format the parser reads (catapult's serialized tree nodes) -- fixed text *)
 Definition serialize_path (p : ppath) : bytes := pp_size p :: pp_bytes p.
-Fixpoint links_mask (k : Z) (links : list (option bytes)) : Z :=
+Definition is_some {A} (o : option A) : bool := match o with Some _ => true | None => false end.
+(* bit k of the mask is set iff link k is present *)
+Fixpoint links_mask (links : list (option bytes)) : Z :=
   match links with
   | [] => 0
-  | l :: r => (match l with Some _ => 2 ^ k | None => 0 end) + links_mask (k + 1) r
+  | l :: r => 2 * links_mask r + Z.b2z (is_some l)
   end.
 Definition serialize_node (n : node) : bytes :=
   match n with
   | LeafNode p v => 255 :: serialize_path p ++ v
   | BranchNode p links =>
-    0 :: serialize_path p ++ to_le 2 (links_mask 0 links) ++ flat_map (fun l => match l with Some h => h | None => [] end) links
+    0 :: serialize_path p ++ to_le 2 (links_mask links) ++ flat_map (fun l => match l with Some h => h | None => [] end) links
   end.
 Definition serialize_nodes (ns : list node) : bytes := flat_map serialize_node ns.
 
@@ -449,7 +456,7 @@ End WithHash.
 Definition nem_hash_transaction (K : bytes -> bytes) (non_verifiable : bytes) : bytes := K non_verifiable.
 
 (* ---- rendering for the correspondence harness ---- *)
-Open Scope string_scope.
+Local Open Scope string_scope.
 Definition render_bytes (r : result bytes) : string :=
   match r with Ok b => to_hex b | Reject => "reject" | Crash k => "crash:" ++ k end.
 Definition render_Z (r : result Z) : string :=
